@@ -844,7 +844,10 @@ class CommitHandler(processor.CommitHandler):
         # The revision-id for this entry will be/has been updated and
         # that means the loader then needs to know what the "new" text is.
         # We therefore must go back to the revision store to get it.
-        lines = self.rev_store.get_file_lines(rev_id, old_path)
+        # Look the text up by file id: in the revision that last changed the
+        # entry it may have had another path (a directory above it renamed since).
+        old_tree = self.rev_store.repo.revision_tree(rev_id)
+        lines = old_tree.get_file_lines(old_tree.id2path(file_id))
         self.data_for_commit[file_id] = b"".join(lines)
 
     def _delete_all_items(self, inv: inventory.Inventory) -> None:
